@@ -72,7 +72,12 @@ fn err_class(e: &ArrowError) -> String {
 const JUNK_HEAD: &str = "J\u{212A}\u{e9}lvin-junk-row-longer-than-12";
 const JUNK_TAIL: &str = "tail\u{1F600}";
 
-/// string array in encoding `enc` (0 Utf8, 1 LargeUtf8, 2 Utf8View, 3 Dictionary<Int32,Utf8>);
+/// string array in encoding `enc`:
+/// 0 Utf8, 1 LargeUtf8, 2 Utf8View, 3 Dictionary<Int32,Utf8> (builder: distinct values, null keys),
+/// 4 hand-made dictionary (Int8 keys when it fits): an unused value, a NULL value referenced by
+///   valid keys, duplicate values, null keys,
+/// 5 / 6 Utf8 / LargeUtf8 whose null slots hold non-empty bytes and whose validity buffer is
+///   present even when every row is valid, 7 Utf8View with non-empty views under nulls.
 /// `sliced` builds a longer array and slices it (non-zero offset, trailing garbage).
 fn mk_str(rows: &[Row], enc: usize, sliced: bool) -> ArrayRef {
     let mut all: Vec<Row> = Vec::with_capacity(rows.len() + 3);
@@ -89,7 +94,7 @@ fn mk_str(rows: &[Row], enc: usize, sliced: bool) -> ArrayRef {
         0 => Arc::new(it.collect::<StringArray>()),
         1 => Arc::new(it.collect::<LargeStringArray>()),
         2 => Arc::new(it.collect::<StringViewArray>()),
-        _ => {
+        3 => {
             let mut b = StringDictionaryBuilder::<Int32Type>::new();
             for r in it {
                 match r {
@@ -101,13 +106,82 @@ fn mk_str(rows: &[Row], enc: usize, sliced: bool) -> ArrayRef {
             }
             Arc::new(b.finish())
         }
+        4 => {
+            let unused = if all.len() % 2 == 0 { "unusedK" } else { "unus\u{212A}d" };
+            let mut vals: Vec<Option<String>> = vec![Some(unused.to_string()), None];
+            let mut keys: Vec<Option<i32>> = vec![];
+            for (i, r) in all.iter().enumerate() {
+                match r {
+                    None => keys.push(if i % 2 == 0 { None } else { Some(1) }),
+                    Some(s) => {
+                        let found = vals.iter().position(|v| v.as_deref() == Some(s.as_str()));
+                        match found {
+                            Some(k) if i % 3 != 0 => keys.push(Some(k as i32)),
+                            _ => {
+                                // a fresh (possibly duplicate) dictionary entry
+                                vals.push(Some(s.clone()));
+                                keys.push(Some(vals.len() as i32 - 1));
+                            }
+                        }
+                    }
+                }
+            }
+            let values: ArrayRef = Arc::new(vals.iter().map(|v| v.as_deref()).collect::<StringArray>());
+            if vals.len() <= 127 {
+                let k: Int8Array = keys.iter().map(|k| k.map(|k| k as i8)).collect();
+                Arc::new(DictionaryArray::<Int8Type>::try_new(k, values).unwrap())
+            } else {
+                let k: Int32Array = keys.iter().copied().collect();
+                Arc::new(DictionaryArray::<Int32Type>::try_new(k, values).unwrap())
+            }
+        }
+        5 | 6 => {
+            let mut data: Vec<u8> = vec![];
+            let mut offs: Vec<usize> = vec![0];
+            let mut valid: Vec<bool> = vec![];
+            for (i, r) in all.iter().enumerate() {
+                match r {
+                    Some(s) => data.extend_from_slice(s.as_bytes()),
+                    None => data.extend_from_slice(if i % 2 == 0 { "Kk".as_bytes() } else { "\u{e9}\u{20AC}".as_bytes() }),
+                }
+                valid.push(r.is_some());
+                offs.push(data.len());
+            }
+            let nulls = arrow_buffer::NullBuffer::from(valid);
+            if enc == 5 {
+                let o = arrow_buffer::OffsetBuffer::new(offs.iter().map(|x| *x as i32).collect::<Vec<i32>>().into());
+                Arc::new(StringArray::new(o, data.into(), Some(nulls)))
+            } else {
+                let o = arrow_buffer::OffsetBuffer::new(offs.iter().map(|x| *x as i64).collect::<Vec<i64>>().into());
+                Arc::new(LargeStringArray::new(o, data.into(), Some(nulls)))
+            }
+        }
+        _ => {
+            let filled: Vec<String> = all
+                .iter()
+                .enumerate()
+                .map(|(i, r)| match r {
+                    Some(s) => s.clone(),
+                    None => if i % 2 == 0 { "Kk".to_string() } else { "under-null-\u{e9}\u{20AC}-longer-than-12".to_string() },
+                })
+                .collect();
+            let a = StringViewArray::from_iter_values(filled.iter().map(|s| s.as_str()));
+            let nulls = arrow_buffer::NullBuffer::from(all.iter().map(|r| r.is_some()).collect::<Vec<bool>>());
+            Arc::new(StringViewArray::new(a.views().clone(), a.data_buffers().to_vec(), Some(nulls)))
+        }
     };
     if sliced { a.slice(2, rows.len()) } else { a }
 }
+const ENC_NAMES: [&str; 8] = ["utf8", "large", "view", "dict", "dictx", "utf8nj", "largenj", "viewnj"];
 
 /// the value type matching encoding `enc` (patterns for a dictionary haystack are plain Utf8)
 fn val_enc(enc: usize) -> usize {
-    if enc == 3 { 0 } else { enc }
+    match enc {
+        3 | 4 | 5 => 0,
+        6 => 1,
+        7 => 2,
+        e => e,
+    }
 }
 
 fn bool_rows(b: &BooleanArray) -> Vec<Option<bool>> {
@@ -133,11 +207,13 @@ fn bytes_rows(a: &dyn Array) -> Vec<Option<Vec<u8>>> {
             t => panic!("unexpected type {t}"),
         })
     };
-    if let Some(d) = a.as_any().downcast_ref::<DictionaryArray<Int32Type>>() {
+    if let Some(d) = a.as_any_dictionary_opt() {
         let vals = bytes_rows(d.values().as_ref());
-        return (0..n)
-            .map(|i| if d.is_null(i) { None } else { vals[d.keys().value(i) as usize].clone() })
-            .collect();
+        if vals.is_empty() {
+            return vec![None; n];
+        }
+        let keys = d.normalized_keys();
+        return (0..n).map(|i| if d.keys().is_null(i) { None } else { vals[keys[i]].clone() }).collect();
     }
     (0..n).map(get).collect()
 }
@@ -145,7 +221,7 @@ fn bytes_rows(a: &dyn Array) -> Vec<Option<Vec<u8>>> {
 /// validity of the UTF-8 actually stored in a string array (bypassing the typed accessors)
 fn stored_utf8_ok(a: &dyn Array) -> bool {
     use arrow_schema::DataType::*;
-    if let Some(d) = a.as_any().downcast_ref::<DictionaryArray<Int32Type>>() {
+    if let Some(d) = a.as_any_dictionary_opt() {
         return stored_utf8_ok(d.values().as_ref());
     }
     match a.data_type() {
@@ -300,6 +376,9 @@ fn re_parse_alt(p: &[char], i: &mut usize) -> Option<Vec<Vec<Re>>> {
             '\\' => {
                 *i += 1;
                 let c = *p.get(*i)?;
+                if c.is_alphanumeric() {
+                    return None; // \w, \d, \b ...: outside the subset of the naive matcher
+                }
                 *i += 1;
                 Re::Lit(c)
             }
@@ -412,7 +491,7 @@ fn cfg_of(var: usize, one_pat: bool) -> Cfg {
 fn cfg_name(c: &Cfg) -> String {
     format!(
         "enc:{}{}{}{}",
-        ["utf8", "large", "view", "dict"][c.enc],
+        ENC_NAMES[c.enc],
         if c.sliced { "+sliced" } else { "" },
         if c.scalar { "+scalar" } else { "+array" },
         if c.dict_pat { "+dictpat" } else { "" }
@@ -433,6 +512,23 @@ fn run_like_cfg(op: &str, c: Cfg, pats: &[Row], hays: &[Row]) -> String {
             let p = mk_str(&full, if c.dict_pat { 3 } else { val_enc(c.enc) }, c.sliced);
             f(&h, &p)
         };
+        match r {
+            Ok(b) => show_tri(&bool_rows(&b)),
+            Err(e) => err_class(&e),
+        }
+    })
+}
+
+/// haystack given as a `Scalar` (the `(true, ..)` arms of `string_apply`), pattern an array
+/// (or, with `both`, a `Scalar` too)
+fn run_like_ls(op: &str, enc: usize, dict_pat: bool, both: bool, pats: &[Row], hays: &[Row]) -> String {
+    let f = like_fn(op);
+    let pats = pats.to_vec();
+    let hays = hays.to_vec();
+    guarded(move || {
+        let h = Scalar::new(mk_str(&hays[..1], enc, false));
+        let penc = if dict_pat { 3 } else { val_enc(enc) };
+        let r = if both { f(&h, &Scalar::new(mk_str(&pats[..1], penc, false))) } else { f(&h, &mk_str(&pats, penc, enc % 2 == 1)) };
         match r {
             Ok(b) => show_tri(&bool_rows(&b)),
             Err(e) => err_class(&e),
@@ -466,10 +562,9 @@ fn run_rx_cfg(var: usize, c: Cfg, flags: Option<&str>, pats: &[Row], hays: &[Row
     let pats = pats.to_vec();
     let hays = hays.to_vec();
     let flags = flags.map(|s| s.to_string());
-    let _ = var;
     guarded(move || {
         let enc = val_enc(c.enc);
-        let h = mk_str(&hays, enc, c.sliced);
+        let h = mk_str(&hays, if c.enc >= 5 { c.enc } else { enc }, c.sliced);
         let r = if c.scalar {
             match &pats[0] {
                 None => return "SCALAR-NULL".to_string(),
@@ -482,7 +577,23 @@ fn run_rx_cfg(var: usize, c: Cfg, flags: Option<&str>, pats: &[Row], hays: &[Row
         } else {
             let full: Vec<Row> = if pats.len() == 1 { vec![pats[0].clone(); hays.len()] } else { pats.clone() };
             let p = mk_str(&full, enc, c.sliced);
-            let fl: Option<Vec<Row>> = flags.as_ref().map(|f| vec![Some(f.clone()); hays.len()]);
+            // with var bit 16 every third row of the flags array is NULL (= no flags for that row)
+            let fl: Option<Vec<Row>> = flags.as_ref().map(|f| (0..hays.len()).map(|i| if (var / 16) % 2 == 1 && i % 3 == 2 { None } else { Some(f.clone()) }).collect());
+            // with var bit 2048 the pattern array has another string type than the haystacks
+            if (var / 2048) % 2 == 1 {
+                let fa = fl.map(|f| mk_str(&f, 0, false));
+                let p0 = mk_str(&full, 0, false);
+                let fo = fa.as_ref().map(|a| a.as_string::<i32>());
+                let r = match enc {
+                    0 => regexp_is_match(h.as_string::<i32>(), p0.as_string::<i32>(), fo),
+                    1 => regexp_is_match(h.as_string::<i64>(), p0.as_string::<i32>(), fo),
+                    _ => regexp_is_match(h.as_string_view(), p0.as_string::<i32>(), fo),
+                };
+                return match r {
+                    Ok(b) => show_tri(&bool_rows(&b)),
+                    Err(e) => err_class(&e),
+                };
+            }
             match enc {
                 0 => {
                     let fa = fl.map(|f| mk_str(&f, 0, false));
@@ -554,15 +665,22 @@ fn run_case(line: &str) -> Out {
             let pats = parse_rows(t[3]);
             let hays = parse_rows(t[4]);
             let one = pats.len() == 1;
+            let lscalar = hays.len() == 1 && pats.len() > 1;
             let c = cfg_of(var, one);
             tags.push(' ');
-            tags.push_str(&cfg_name(&c));
-            let ans = run_like_cfg(op, c, &pats, &hays);
+            let ans = if lscalar {
+                tags.push_str(&format!("enc:{}+left-scalar{}", ENC_NAMES[c.enc], if c.dict_pat { "+dictpat" } else { "" }));
+                run_like_ls(op, c.enc, c.dict_pat, false, &pats, &hays)
+            } else {
+                tags.push_str(&cfg_name(&c));
+                run_like_cfg(op, c, &pats, &hays)
+            };
             // harness-side naive answer
-            let full: Vec<Row> = if one { vec![pats[0].clone(); hays.len()] } else { pats.clone() };
+            let full: Vec<Row> = if one && !lscalar { vec![pats[0].clone(); hays.len()] } else { pats.clone() };
+            let hays_full: Vec<Row> = if lscalar { vec![hays[0].clone(); pats.len()] } else { hays.clone() };
             let naive: Vec<Option<bool>> = full
                 .iter()
-                .zip(hays.iter())
+                .zip(hays_full.iter())
                 .map(|(p, h)| {
                     let (p, h) = (p.as_ref()?, h.as_ref()?);
                     let pc: Vec<char> = p.chars().collect();
@@ -580,28 +698,88 @@ fn run_case(line: &str) -> Out {
                 })
                 .collect();
             let naive = show_tri(&naive);
-            if full.len() == hays.len() && ans != naive {
+            let len_mismatch = full.len() != hays_full.len();
+            if len_mismatch {
+                tags.push_str(" err:length-mismatch");
+                if ans != "ERR:invalid-arg" {
+                    oracle.push(format!("arrays of different lengths: impl {} but an InvalidArgumentError is documented", ans));
+                }
+            } else if ans != naive {
                 oracle.push(format!("{}: impl {} vs naive char-level matcher {}", cfg_name(&c), ans, naive));
             }
             // every other configuration must give the same answer
-            for enc in 0..4 {
-                for scalar in [false, true] {
-                    for sliced in [false, true] {
-                        if (scalar && !one) || (sliced && (enc + var) % 2 == 0) {
+            if lscalar {
+                for enc in 0..8 {
+                    for dict_pat in [false, true] {
+                        if dict_pat && val_enc(enc) != 0 {
                             continue;
                         }
-                        let c2 = Cfg { enc, sliced, scalar, dict_pat: false };
-                        if c2 == c {
-                            continue;
-                        }
-                        let a2 = run_like_cfg(op, c2, &pats, &hays);
+                        let a2 = run_like_ls(op, enc, dict_pat, false, &pats, &hays);
                         if a2 != ans {
-                            oracle.push(format!("encodings differ: {} gives {} but {} gives {}", cfg_name(&c), ans, cfg_name(&c2), a2));
+                            oracle.push(format!("encodings differ: left-scalar {} gives {} but left-scalar {} dictpat {} gives {}", ENC_NAMES[c.enc], ans, ENC_NAMES[enc], dict_pat, a2));
                         }
                     }
                 }
+                // ... and the same rows as two arrays
+                let a2 = run_like_cfg(op, Cfg { enc: var % 3, sliced: false, scalar: false, dict_pat: false }, &pats, &hays_full);
+                if a2 != ans {
+                    oracle.push(format!("left scalar gives {} but the broadcast array gives {}", ans, a2));
+                }
+            } else {
+                for enc in 0..8 {
+                    for scalar in [false, true] {
+                        for sliced in [false, true] {
+                            if (scalar && !one) || (sliced && (enc + var) % 2 == 0) {
+                                continue;
+                            }
+                            // the layout variants 4..7 run one configuration each
+                            if enc >= 4 && (sliced != ((enc + var) % 3 == 0) || scalar != (one && (enc + var) % 2 == 0)) {
+                                continue;
+                            }
+                            let c2 = Cfg { enc, sliced, scalar, dict_pat: false };
+                            if c2 == c {
+                                continue;
+                            }
+                            let a2 = run_like_cfg(op, c2, &pats, &hays);
+                            if a2 != ans {
+                                oracle.push(format!("encodings differ: {} gives {} but {} gives {}", cfg_name(&c), ans, cfg_name(&c2), a2));
+                            }
+                        }
+                    }
+                }
+                if one && hays.len() == 1 {
+                    // both operands scalar
+                    let a2 = run_like_ls(op, var % 8, false, true, &pats, &hays);
+                    if a2 != ans {
+                        oracle.push(format!("both operands scalar: {} vs {}", a2, ans));
+                    }
+                    tags.push_str(" both-scalar");
+                }
+                // documented errors: operand types must match; LIKE is not defined on binary
+                if var % 16 == 5 && !hays.is_empty() {
+                    let (pp, hh) = (pats.clone(), hays.clone());
+                    let f = like_fn(op);
+                    let e = guarded(move || {
+                        let full: Vec<Row> = if pp.len() == 1 { vec![pp[0].clone(); hh.len()] } else { pp.clone() };
+                        match f(&mk_str(&hh, 0, false), &mk_str(&full, 1 + var / 16 % 2, false)) {
+                            Ok(b) => show_tri(&bool_rows(&b)),
+                            Err(e) => err_class(&e),
+                        }
+                    });
+                    if e != "ERR:invalid-arg" {
+                        oracle.push(format!("Utf8 vs LargeUtf8/Utf8View operands: {} instead of an error", e));
+                    }
+                    tags.push_str(" err:type-mismatch");
+                }
+                if var % 16 == 6 && !len_mismatch && !matches!(op, "sw" | "ew" | "ct") {
+                    let e = run_like_bin(op, var / 16 % 3, false, false, &pats, &hays);
+                    if e != "ERR:invalid-arg" {
+                        oracle.push(format!("{} on binary operands: {} instead of an error", op, e));
+                    }
+                    tags.push_str(" err:like-on-binary");
+                }
             }
-            if op == "sw" || op == "ew" || op == "ct" {
+            if (op == "sw" || op == "ew" || op == "ct") && !lscalar && !len_mismatch {
                 for kind in 0..3 {
                     for scalar in [false, true] {
                         if scalar && !one {
@@ -644,7 +822,13 @@ fn run_case(line: &str) -> Out {
             // known finding: a dictionary whose values array is empty (all rows null) reaches
             // `normalized_keys` (assert_ne!(v_len, 0)) whenever the pattern is an array; the
             // dictionary+array configuration is always among the ones run for this line
-            if hays.iter().all(|h| h.is_none()) || (!c.scalar && c.dict_pat && pats.iter().all(|p| p.is_none())) {
+            if lscalar {
+                tags.push_str(" left-scalar");
+            }
+            if (!lscalar && hays.iter().all(|h| h.is_none()))
+                || (!c.scalar && c.dict_pat && pats.iter().all(|p| p.is_none()))
+                || (lscalar && pats.iter().all(|p| p.is_none()))
+            {
                 tags.push_str(" kf:dict-empty-values");
             }
             ans
@@ -667,12 +851,14 @@ fn run_case(line: &str) -> Out {
             // naive answer (null handling of the array kernel: null if either side null;
             // the scalar kernel keeps the haystack's nulls)
             let mut supported = true;
+            let row_flags = |i: usize| -> Option<&str> { if !c.scalar && (var / 16) % 2 == 1 && i % 3 == 2 { None } else { flags } };
             let naive: Vec<Option<bool>> = full
                 .iter()
                 .zip(hays.iter())
-                .map(|(p, h)| {
+                .enumerate()
+                .map(|(i, (p, h))| {
                     let (p, h) = (p.as_ref()?, h.as_ref()?);
-                    match regex_naive(p, flags.unwrap_or(""), h) {
+                    match regex_naive(p, row_flags(i).unwrap_or(""), h) {
                         Some(b) => Some(b),
                         None => {
                             supported = false;
@@ -681,6 +867,26 @@ fn run_case(line: &str) -> Out {
                     }
                 })
                 .collect();
+            // an invalid expression is an error as soon as it has to be compiled: always for a scalar
+            // pattern, for the first row with both sides non-null for an array pattern
+            let complete = |p: &str, f: Option<&str>| match f {
+                Some(f) => format!("(?{}){}", f, p),
+                None => p.to_string(),
+            };
+            let invalid = |p: &str, f: Option<&str>| !complete(p, f).is_empty() && regex::Regex::new(&complete(p, f)).is_err();
+            let expect_err = if full.len() != hays.len() {
+                true
+            } else if c.scalar {
+                pats[0].as_deref().is_some_and(|p| invalid(p, flags))
+            } else {
+                full.iter().zip(hays.iter()).enumerate().any(|(i, (p, h))| h.is_some() && p.as_deref().is_some_and(|p| invalid(p, row_flags(i))))
+            };
+            if ans != "SCALAR-NULL" && (ans == "ERR:compute") != expect_err {
+                oracle.push(format!("{}: impl {} but error expected: {}", cfg_name(&c), ans, expect_err));
+            }
+            if expect_err {
+                tags.push_str(" err:invalid-regex-or-length");
+            }
             if supported && !ans.starts_with("ERR") && ans != "SCALAR-NULL" && full.len() == hays.len() {
                 let naive = show_tri(&naive);
                 if ans != naive {
@@ -689,13 +895,16 @@ fn run_case(line: &str) -> Out {
                 tags.push_str(" naive-checked");
             }
             if ans != "SCALAR-NULL" {
-                for enc in 0..3 {
+                for enc in [0usize, 1, 2, 5, 6, 7] {
                     for scalar in [false, true] {
                         if scalar && (!one || pats[0].is_none()) {
                             continue;
                         }
-                        let c2 = Cfg { enc, sliced: false, scalar, dict_pat: false };
-                        let a2 = run_rx_cfg(var, c2, flags, &pats, &hays);
+                        if scalar != c.scalar && flags.is_some() && (var / 16) % 2 == 1 {
+                            continue; // per-row NULL flags exist only for array operands
+                        }
+                        let c2 = Cfg { enc, sliced: (enc + var) % 3 == 0, scalar, dict_pat: false };
+                        let a2 = run_rx_cfg(if !scalar && enc < 3 { var | 2048 } else { var }, c2, flags, &pats, &hays);
                         if a2 != ans {
                             oracle.push(format!("encodings differ: {} gives {} but {} gives {}", cfg_name(&c), ans, cfg_name(&c2), a2));
                         }
@@ -703,6 +912,124 @@ fn run_case(line: &str) -> Out {
                 }
             }
             if ans.contains('0') && ans.contains('1') {
+                tags.push_str(" nt");
+            }
+            ans
+        }
+        "rxm" => {
+            // regexp_match: the captured groups (or the whole match) per row
+            let var: usize = t[2].parse().unwrap();
+            let pats = parse_rows(t[3]);
+            let hays = parse_rows(t[4]);
+            let one = pats.len() == 1;
+            let flags: Option<&str> = match (var / 32) % 4 {
+                0 => None,
+                1 => Some("i"),
+                2 => Some("s"),
+                _ => Some("is"),
+            };
+            let (p2, h2) = (pats.clone(), hays.clone());
+            let run = move |enc: usize, scalar: bool, sliced: bool| -> String {
+                let (pats, hays) = (p2.clone(), h2.clone());
+                let fl = flags.map(|f| f.to_string());
+                guarded(move || {
+                    let h = mk_str(&hays, enc, sliced);
+                    let r = if scalar {
+                        let p = Scalar::new(mk_str(&pats[..1], val_enc(enc), false));
+                        let f = fl.as_ref().map(|f| Scalar::new(mk_str(&[Some(f.clone())], val_enc(enc), false)));
+                        arrow_string::regexp::regexp_match(h.as_ref(), &p, f.as_ref().map(|x| x as &dyn Datum))
+                    } else {
+                        let full: Vec<Row> = if pats.len() == 1 { vec![pats[0].clone(); hays.len()] } else { pats.clone() };
+                        let p = mk_str(&full, val_enc(enc), sliced);
+                        let f = fl.as_ref().map(|f| mk_str(&vec![Some(f.clone()); hays.len()], val_enc(enc), false));
+                        arrow_string::regexp::regexp_match(h.as_ref(), &p, f.as_ref().map(|x| x as &dyn Datum))
+                    };
+                    match r {
+                        Ok(a) => {
+                            if a.len() != hays.len() {
+                                return format!("WRONG-LEN:{}", a.len());
+                            }
+                            let l = a.as_list::<i32>();
+                            let rows: Vec<String> = (0..l.len())
+                                .map(|i| {
+                                    if l.is_null(i) {
+                                        "~".to_string()
+                                    } else {
+                                        let v = bytes_rows(l.value(i).as_ref());
+                                        if v.is_empty() { "E".to_string() } else { v.iter().map(show_row_bytes).collect::<Vec<_>>().join("+") }
+                                    }
+                                })
+                                .collect();
+                            if rows.is_empty() { "-".to_string() } else { rows.join(",") }
+                        }
+                        Err(e) => err_class(&e),
+                    }
+                })
+            };
+            let enc = [0usize, 1, 2, 5, 6, 7][var % 6];
+            let scalar = one && (var / 8) % 2 == 1;
+            let ans = run(enc, scalar, (var / 4) % 2 == 1);
+            tags.push_str(&format!(" enc:{}{} flags:{}", ENC_NAMES[enc], if scalar { "+scalar" } else { "+array" }, flags.unwrap_or("none")));
+            // expected: straight from the regex engine
+            let full: Vec<Row> = if one { vec![pats[0].clone(); hays.len()] } else { pats.clone() };
+            let complete = |p: &str| match flags {
+                Some(f) => format!("(?{}){}", f, p),
+                None => p.to_string(),
+            };
+            let mut any_invalid = false;
+            let want: Vec<String> = full
+                .iter()
+                .zip(hays.iter())
+                .map(|(p, h)| match (p, h) {
+                    (Some(p), Some(h)) => {
+                        let cp = complete(p);
+                        if cp.is_empty() {
+                            return "_".to_string();
+                        }
+                        match regex::Regex::new(&cp) {
+                            Err(_) => {
+                                any_invalid = true;
+                                "~".to_string()
+                            }
+                            Ok(re) => match re.captures(h) {
+                                None => "~".to_string(),
+                                Some(caps) => {
+                                    let v: Vec<String> = caps.iter().skip(if caps.len() > 1 { 1 } else { 0 }).flatten().map(|m| show_row(&Some(m.as_str().to_string()))).collect();
+                                    if v.is_empty() { "E".to_string() } else { v.join("+") }
+                                }
+                            },
+                        }
+                    }
+                    _ => "~".to_string(),
+                })
+                .collect();
+            let want = if want.is_empty() { "-".to_string() } else { want.join(",") };
+            if scalar && pats[0].is_some() && regex::Regex::new(&complete(pats[0].as_ref().unwrap())).is_err() {
+                any_invalid = true;
+            }
+            if full.len() != hays.len() {
+                // regexp_match zips; nothing documented — only encoding identity is checked
+                tags.push_str(" err:length-mismatch");
+            } else if any_invalid {
+                if ans != "ERR:compute" {
+                    oracle.push(format!("invalid regular expression: impl {} instead of an error", ans));
+                }
+                tags.push_str(" err:invalid-regex-or-length");
+            } else if ans != want {
+                oracle.push(format!("regexp_match: impl {} vs captures of the regex engine {}", ans, want));
+            }
+            for enc2 in [0usize, 1, 2, 5, 6, 7] {
+                for sc in [false, true] {
+                    if sc && !one {
+                        continue;
+                    }
+                    let a2 = run(enc2, sc, (enc2 + var) % 2 == 0);
+                    if a2 != ans {
+                        oracle.push(format!("encodings differ: reported {} but {} scalar {} gives {}", ans, ENC_NAMES[enc2], sc, a2));
+                    }
+                }
+            }
+            if ans.contains('~') && ans.chars().any(|c| c.is_ascii_hexdigit()) {
                 tags.push_str(" nt");
             }
             ans
@@ -742,8 +1069,9 @@ fn run_case(line: &str) -> Out {
             tags.push_str(&format!(" kind:{}", kind));
             // same answer for the other encodings of the same family
             if is_str {
-                for k2 in 0..4 {
-                    if k2 != k {
+                for k2 in 0..8 {
+                    // (the hand-made dictionary always has an unreferenced value: only when asked for)
+                    if k2 != k && k2 != 4 {
                         let (a2, ok2) = run(true, k2, false);
                         if a2 != ans || !ok2 {
                             oracle.push(format!("encodings differ: s{} gives {} but s{} gives {} (utf8 ok {})", k, ans, k2, a2, ok2));
@@ -771,8 +1099,18 @@ fn run_case(line: &str) -> Out {
                 tags.push_str(" kf:substr-huge-arg");
             }
             // known finding: a sliced dictionary still holds the junk rows as unreferenced values
-            if is_str && k == 3 && sliced {
-                let bad = [JUNK_HEAD, JUNK_TAIL].iter().any(|v| {
+            // (the hand-made dictionary s4 always has an unused value)
+            if is_str {
+                let n_all = rows.len();
+                let unused4 = if n_all % 2 == 0 { "unusedK" } else { "unus\u{212A}d" };
+                let mut cands: Vec<&str> = if k == 4 { vec![unused4] } else { vec![] };
+                if k == 3 && sliced {
+                    cands.extend([JUNK_HEAD, JUNK_TAIL]);
+                }
+                if k == 4 && sliced {
+                    cands.extend([JUNK_HEAD, JUNK_TAIL, "unusedK", "unus\u{212A}d"]);
+                }
+                let bad = cands.iter().any(|v| {
                     let n = v.len() as i128;
                     let st = if start > 0 { (start as i128).min(n) } else if start == 0 { 0 } else { (n + start as i128).max(0) };
                     let en = match len {
@@ -783,6 +1121,23 @@ fn run_case(line: &str) -> Out {
                 });
                 if bad {
                     tags.push_str(" kf:substr-dict-unreferenced");
+                }
+            }
+            // known finding: byte_substring also cuts the bytes stored under NULL slots (layouts s5/s6,
+            // run for every string line): a multi-byte character there makes the whole call fail
+            if is_str {
+                let cut_bad = |v: &str| {
+                    let n = v.len() as i128;
+                    let st = if start > 0 { (start as i128).min(n) } else if start == 0 { 0 } else { (n + start as i128).max(0) };
+                    let en = match len {
+                        Some(l) => (st + l as i128).min(n),
+                        None => n,
+                    };
+                    !v.is_char_boundary(st as usize) || !v.is_char_boundary(en as usize)
+                };
+                let shift = if (k == 5 || k == 6) && sliced { [0usize, 2] } else { [0usize, 0] };
+                if rows.iter().enumerate().any(|(i, r)| r.is_none() && shift.iter().any(|sh| (i + sh) % 2 == 1) && cut_bad("\u{e9}\u{20AC}")) {
+                    tags.push_str(" kf:substr-null-slot-content");
                 }
             }
             if start < 0 {
@@ -799,10 +1154,11 @@ fn run_case(line: &str) -> Out {
             let len: Option<u64> = if t[4] == "N" { None } else { Some(t[4].parse().unwrap()) };
             let rows = parse_rows(t[5]);
             let rows2 = rows.clone();
+            let nj = (var / 4) % 2 == 1;
             let run = move |large: bool, sliced: bool| -> String {
                 let rows = rows2.clone();
                 guarded(move || {
-                    let a = mk_str(&rows, if large { 1 } else { 0 }, sliced);
+                    let a = mk_str(&rows, if large { 1 } else { 0 } + if nj { 5 } else { 0 }, sliced);
                     let r: Result<ArrayRef, ArrowError> = if large {
                         arrow_string::substring::substring_by_char(a.as_string::<i64>(), start, len).map(|x| Arc::new(x) as ArrayRef)
                     } else {
@@ -844,6 +1200,9 @@ fn run_case(line: &str) -> Out {
                 oracle.push(format!("impl {} vs naive char-indexed substring {}", ans, show_rows(&naive)));
             }
             tags.push_str(if rows.iter().flatten().all(|s| s.is_ascii()) { " ascii-path" } else { " utf8-path nt" });
+            if nj {
+                tags.push_str(" layout:null-junk");
+            }
             if start < 0 {
                 tags.push_str(" neg-start");
             }
@@ -856,7 +1215,21 @@ fn run_case(line: &str) -> Out {
             let run = move |kind: usize| -> String {
                 let rows = rows2.clone();
                 guarded(move || {
-                    let a = if kind < 4 { mk_str(&rows, kind, false) } else if kind < 8 { mk_str(&rows, kind - 4, true) } else { mk_bin(&rows, kind - 8, false) };
+                    // 0..3 plain, 4..7 sliced, 8..10 binary, 11 FixedSizeBinary, 12 hand-made dictionary,
+                    // 13/14/15 null-junk Utf8/LargeUtf8/Utf8View, 16 run-end encoded Utf8
+                    let a: ArrayRef = match kind {
+                        0..=3 => mk_str(&rows, kind, false),
+                        4..=7 => mk_str(&rows, kind - 4, true),
+                        8..=11 => mk_bin(&rows, kind - 8, false),
+                        12 => mk_str(&rows, 4, true),
+                        13 | 14 => mk_str(&rows, kind - 8, kind == 14),
+                        15 => mk_str(&rows, 7, false),
+                        _ => {
+                            let vals = mk_str(&rows, 0, false);
+                            let ends: Int32Array = (1..=rows.len() as i32).collect();
+                            Arc::new(RunArray::<Int32Type>::try_new(&ends, vals.as_ref()).unwrap())
+                        }
+                    };
                     let r = if op == "len" { arrow_string::length::length(a.as_ref()) } else { arrow_string::length::bit_length(a.as_ref()) };
                     match r {
                         Ok(r) => {
@@ -868,10 +1241,17 @@ fn run_case(line: &str) -> Out {
                             };
                             let v: Vec<String> = (0..r.len())
                                 .map(|i| {
-                                    if r.is_null(i) {
+                                    if let Some(d) = r.as_any_dictionary_opt() {
+                                        if d.values().is_empty() {
+                                            return "~".to_string();
+                                        }
+                                        let k = d.normalized_keys();
+                                        if d.keys().is_null(i) || d.values().is_null(k[i]) { "~".to_string() } else { ints(d.values().as_ref(), k[i]).to_string() }
+                                    } else if let Some(ree) = r.as_any().downcast_ref::<RunArray<Int32Type>>() {
+                                        let j = ree.get_physical_index(i);
+                                        if ree.values().is_null(j) { "~".to_string() } else { ints(ree.values().as_ref(), j).to_string() }
+                                    } else if r.is_null(i) {
                                         "~".to_string()
-                                    } else if let Some(d) = r.as_any().downcast_ref::<DictionaryArray<Int32Type>>() {
-                                        ints(d.values().as_ref(), d.keys().value(i) as usize).to_string()
                                     } else {
                                         ints(r.as_ref(), i).to_string()
                                     }
@@ -887,8 +1267,11 @@ fn run_case(line: &str) -> Out {
                 })
             };
             let ans = run(kind);
-            for k2 in 0..11 {
-                if k2 != kind {
+            let same_w = rows.iter().all(|r| r.is_some()) && rows.iter().flatten().map(|s| s.len()).collect::<std::collections::BTreeSet<_>>().len() == 1;
+            for k2 in 0..17 {
+                // FixedSizeBinary needs equal widths (and length() reports the width under nulls too);
+                // empty dictionaries / run arrays are not constructible
+                if k2 != kind && (k2 != 11 || same_w) && (k2 != 16 || !rows.is_empty()) {
                     let a2 = run(k2);
                     if a2 != ans {
                         oracle.push(format!("encodings differ: kind {} gives {} but kind {} gives {}", kind, ans, k2, a2));
@@ -906,18 +1289,28 @@ fn run_case(line: &str) -> Out {
             let l = parse_rows(t[3]);
             let r = parse_rows(t[4]);
             let (l2, r2) = (l.clone(), r.clone());
+            // 0/1 typed Utf8/LargeUtf8, 2 Utf8View, 3/4 Utf8/LargeUtf8 through concat_elements_dyn,
+            // 5/6/7 Binary/LargeBinary/BinaryView, 8 FixedSizeBinary, 9/10/11 null-junk Utf8/LargeUtf8/Utf8View
             let run = move |enc: usize, sliced: bool| -> String {
                 let (l, r) = (l2.clone(), r2.clone());
                 guarded(move || {
-                    let a = mk_str(&l, enc, sliced);
-                    let b = mk_str(&r, enc, sliced && enc != 2);
+                    use arrow_string::concat_elements::*;
+                    let (a, b): (ArrayRef, ArrayRef) = match enc {
+                        0..=2 => (mk_str(&l, enc, sliced), mk_str(&r, enc, sliced && enc != 2)),
+                        3 | 4 => (mk_str(&l, enc - 3, sliced), mk_str(&r, enc - 3, !sliced)),
+                        5..=8 => (mk_bin(&l, enc - 5, sliced), mk_bin(&r, enc - 5, false)),
+                        _ => (mk_str(&l, enc - 4, sliced), mk_str(&r, enc - 4, !sliced)),
+                    };
                     let res: Result<ArrayRef, ArrowError> = match enc {
-                        0 => arrow_string::concat_elements::concat_elements_utf8(a.as_string::<i32>(), b.as_string::<i32>()).map(|x| Arc::new(x) as ArrayRef),
-                        1 => arrow_string::concat_elements::concat_elements_utf8(a.as_string::<i64>(), b.as_string::<i64>()).map(|x| Arc::new(x) as ArrayRef),
-                        _ => arrow_string::concat_elements::concat_elements_dyn(a.as_ref(), b.as_ref()),
+                        0 | 9 => concat_elements_utf8(a.as_string::<i32>(), b.as_string::<i32>()).map(|x| Arc::new(x) as ArrayRef),
+                        1 | 10 => concat_elements_utf8(a.as_string::<i64>(), b.as_string::<i64>()).map(|x| Arc::new(x) as ArrayRef),
+                        _ => concat_elements_dyn(a.as_ref(), b.as_ref()),
                     };
                     match res {
                         Ok(x) => {
+                            if x.len() != l.len() {
+                                return format!("WRONG-LEN:{}", x.len());
+                            }
                             if !stored_utf8_ok(x.as_ref()) {
                                 return "INVALID-UTF8".into();
                             }
@@ -927,12 +1320,20 @@ fn run_case(line: &str) -> Out {
                     }
                 })
             };
-            let ans = run(var % 3, (var / 3) % 2 == 1);
-            for enc in 0..3 {
-                let a2 = run(enc, false);
-                if a2 != ans {
-                    oracle.push(format!("encodings differ: {} vs enc {} {}", ans, enc, a2));
+            let ans = run(var % 12, (var / 12) % 2 == 1);
+            let fsb_ok = |rows: &[Row]| rows.iter().flatten().map(|s| s.len()).collect::<std::collections::BTreeSet<_>>().len() <= 1;
+            let fsb = fsb_ok(&l) && fsb_ok(&r);
+            for enc in 0..12 {
+                if enc == 8 && (!fsb || l.len() != r.len()) {
+                    continue;
                 }
+                let a2 = run(enc, (enc + var) % 2 == 0);
+                if a2 != ans {
+                    oracle.push(format!("encodings differ: reported {} vs enc {} {}", ans, enc, a2));
+                }
+            }
+            if l.len() != r.len() {
+                tags.push_str(" err:length-mismatch");
             }
             if l.len() == r.len() {
                 // also the n-ary kernel with three operands: l ++ r ++ l
@@ -952,7 +1353,10 @@ fn run_case(line: &str) -> Out {
                     oracle.push(format!("concat_elements_utf8_many: {} vs {}", many, show_rows(&want)));
                 }
             }
-            tags.push_str(&format!(" enc:{}", ["utf8", "large", "view"][var % 3]));
+            tags.push_str(&format!(" enc:{}", ["utf8", "large", "view", "utf8-dyn", "large-dyn", "binary", "largebinary", "binaryview", "fsb", "utf8nj", "largenj", "viewnj"][var % 12]));
+            if l.iter().zip(r.iter()).any(|(a, b)| matches!((a, b), (Some(a), Some(b)) if a.len() <= 12 && b.len() <= 12 && a.len() + b.len() > 12)) {
+                tags.push_str(" concat:inline+inline>12");
+            }
             if l.iter().chain(r.iter()).flatten().any(|s| !s.is_ascii()) {
                 tags.push_str(" nt");
             }
@@ -1193,6 +1597,11 @@ impl Gen {
                 }
                 let hays = gen_rows(rng, alpha, n, 14, &ps);
                 let op = *rng.pick(&["like", "nlike", "ilike", "nilike"]);
+                if rng.chance(1, 4) {
+                    // the haystack is the scalar operand
+                    let h = hays.iter().flatten().next().cloned();
+                    return like_line(op, var, &pats, &[h]);
+                }
                 like_line(op, var, &pats, &hays)
             }
             40..=57 => {
@@ -1263,12 +1672,25 @@ impl Gen {
                     })
                     .collect();
                 let var = rng.usize(128);
+                let (mut pats, mut hays) = (pats, hays);
+                if rng.chance(1, 15) {
+                    // an expression that does not compile, in a row that must be evaluated
+                    pats[0] = Some(rng.pick(&["(", "[a", "*a", "a{2", "\\", "(?P<n>a)(?P<n>b)"]).to_string());
+                    if hays[0].is_none() {
+                        hays[0] = Some("a".to_string());
+                    }
+                }
+                if rng.chance(1, 3) {
+                    // regexp_match: add a capture group around a part of some pattern
+                    let pats: Vec<Row> = pats.iter().map(|p| p.as_ref().map(|p| if p.len() > 1 && !p.starts_with('^') && rng.bool() { format!("({})", p) } else { p.clone() })).collect();
+                    return format!("C20 rxm {} {} {}", var, show_rows(&pats), show_rows(&hays));
+                }
                 format!("C20 rx {} {} {}", var, show_rows(&pats), show_rows(&hays))
             }
             78..=87 => {
                 // substring (byte indexed)
                 let is_str = rng.chance(2, 3);
-                let k = rng.usize(4);
+                let k = if is_str { rng.usize(8) } else { rng.usize(4) };
                 let n = 1 + rng.usize(6);
                 let alpha: &[char] = if rng.chance(1, 4) { ASCII_ALPHA } else { ALPHA };
                 let rows: Vec<Row> = if !is_str && k == 3 {
@@ -1299,7 +1721,7 @@ impl Gen {
                     2 => "1000".to_string(),
                     _ => rng.range(0, maxb + 2).to_string(),
                 };
-                let sliced = (is_str || k != 2) && rng.chance(1, 3);
+                let sliced = rng.chance(1, 3);
                 // a modest share of huge arguments (known finding kf:substr-huge-arg)
                 let (start, len) = if rng.chance(1, 25) {
                     let hs: [i64; 9] = [i32::MAX as i64, 1 << 31, (1 << 32) + 1, i64::MAX, i64::MIN, -(1 << 31), -(1 << 31) - 1, -(1 << 32) - 1, 1];
@@ -1324,21 +1746,201 @@ impl Gen {
                     3 => u64::MAX.to_string(),
                     _ => rng.range(0, maxc + 2).to_string(),
                 };
-                format!("C20 substrc {} {} {} {}", rng.usize(4), start, len, show_rows(&rows))
+                format!("C20 substrc {} {} {} {}", rng.usize(8), start, len, show_rows(&rows))
             }
             94..=96 => {
                 let n = rng.usize(8);
                 let rows = gen_rows(rng, ALPHA, n, 20, &[]);
-                format!("C20 {} {} {}", if rng.bool() { "len" } else { "bitlen" }, rng.usize(11), show_rows(&rows))
+                let kinds: Vec<usize> = (0..17).filter(|k| *k != 11 && (*k != 16 || n > 0)).collect();
+                format!("C20 {} {} {}", if rng.bool() { "len" } else { "bitlen" }, rng.pick(&kinds), show_rows(&rows))
             }
             _ => {
                 let n = rng.usize(8);
                 let l = gen_rows(rng, ALPHA, n, 10, &[]);
                 let r = gen_rows(rng, ALPHA, n, 10, &[]);
-                format!("C20 concat {} {} {}", rng.usize(6), show_rows(&l), show_rows(&r))
+                let mut var = rng.usize(24);
+                if var % 12 == 8 {
+                    var += 1; // FixedSizeBinary needs equal widths: only in the dense block
+                }
+                format!("C20 concat {} {} {}", var, show_rows(&l), show_rows(&r))
             }
         }
     }
+}
+
+/// Deterministic block of boundary cases emitted in every run (a corpus generated in code).
+fn dense_cases() -> Vec<(String, &'static str)> {
+    let mut out: Vec<(String, &'static str)> = vec![];
+    let some = |s: &str| Some(s.to_string());
+    // ---- 1. simple-case-folding classes x every shortcut shape x both operand kinds
+    let classes: [&[char]; 9] = [
+        &['k', 'K', '\u{212A}'],
+        &['s', 'S', '\u{17F}'],
+        &['\u{b5}', '\u{3bc}', '\u{39c}'],
+        &['\u{e5}', '\u{c5}', '\u{212B}'],
+        &['\u{3c9}', '\u{3a9}', '\u{2126}'],
+        &['\u{3c3}', '\u{3c2}', '\u{3a3}'],
+        &['\u{df}', '\u{1E9E}'],
+        &['i', 'I', '\u{130}', '\u{131}'],
+        &['\u{1c4}', '\u{1c5}', '\u{1c6}'],
+    ];
+    let shapes: [(&str, &str); 10] = [("", ""), ("", "%"), ("%", ""), ("%", "%"), ("a", "%"), ("%", "a"), ("_", ""), ("", "_"), ("%a", "%"), ("a\\%", "%")];
+    let mut v = 0usize;
+    for cl in classes.iter() {
+        for pm in cl.iter() {
+            for (pre, post) in shapes.iter() {
+                let pat = format!("{}{}{}", pre, pm, post);
+                // rows: every member of the class placed so that each shape can match, plus near misses
+                let mut all_rows: Vec<Row> = vec![];
+                for hm in cl.iter() {
+                    for ctx in [("", ""), ("a", ""), ("", "a"), ("a", "b"), ("x", ""), ("a%", "z")] {
+                        all_rows.push(Some(format!("{}{}{}", ctx.0, hm, ctx.1)));
+                    }
+                }
+                all_rows.push(some("a"));
+                all_rows.push(None);
+                let ascii_rows: Vec<Row> = all_rows.iter().filter(|r| r.as_ref().is_none_or(|s| s.is_ascii())).cloned().collect();
+                for rows in [&all_rows, &ascii_rows] {
+                    for op in ["ilike", "nilike", "like", "eqi"] {
+                        if op == "eqi" && !(pre.is_empty() && post.is_empty()) {
+                            continue;
+                        }
+                        v += 1;
+                        // scalar pattern (var bit 8) and array pattern alternate; all encodings rotate
+                        out.push((like_line(op, v % 64, &[Some(pat.clone())], rows), "dense:fold-class"));
+                    }
+                }
+                // the haystack as the scalar operand, every shape of this member as array patterns
+                if pre.is_empty() && post.is_empty() {
+                    let pats: Vec<Row> = shapes.iter().map(|(a, b)| Some(format!("{}{}{}", a, pm, b))).collect();
+                    for hm in cl.iter() {
+                        v += 1;
+                        out.push((like_line("ilike", v % 64, &pats, &[Some(format!("a{}", hm))]), "dense:fold-class"));
+                    }
+                }
+            }
+        }
+    }
+    // ---- 2. Utf8View boundaries: inline length 12, 4-byte prefix; needle lengths around them
+    let abc = "abcdefghijklmnopqrstuvwxyz0123456789ABCDEFGHIJKLMNOPQRSTUVWXYZabcdefghijklmnopqrstuvwxyz";
+    let mut hays: Vec<Row> = (0..=15).map(|l| some(&abc[..l])).collect();
+    for l in [16, 17, 20, 31, 32, 33, 63, 64, 65, 80] {
+        hays.push(some(&abc[..l]));
+    }
+    // the same tails, for ends_with
+    for l in [3, 4, 5, 11, 12, 13, 14, 20] {
+        hays.push(some(&abc[40 - l..40]));
+    }
+    hays.push(some("\u{e9}\u{e9}\u{e9}\u{e9}\u{e9}\u{e9}")); // 12 bytes, 6 chars
+    hays.push(some("\u{e9}\u{e9}\u{e9}\u{e9}\u{e9}\u{e9}a")); // 13 bytes
+    hays.push(some("abc\u{20AC}")); // a character straddling the 4-byte prefix
+    hays.push(None);
+    for m in [0usize, 1, 3, 4, 5, 11, 12, 13, 16] {
+        let mut needles: Vec<String> = vec![abc[..m].to_string(), abc[40 - m..40].to_string()];
+        if m > 0 {
+            // near misses: last / first byte changed
+            needles.push(format!("{}#", &abc[..m - 1]));
+            needles.push(format!("#{}", &abc[1..m]));
+            needles.push(format!("#{}", &abc[41 - m..40]));
+            needles.push(abc[..m].to_ascii_uppercase());
+        }
+        if m == 3 || m == 4 {
+            needles.push("abc\u{20AC}"[..3].to_string());
+            needles.push("ab\u{e9}".to_string());
+        }
+        for nd in needles {
+            for (op, pat) in [
+                ("sw", nd.clone()),
+                ("ew", nd.clone()),
+                ("ct", nd.clone()),
+                ("like", format!("{}%", nd)),
+                ("like", format!("%{}", nd)),
+                ("nlike", format!("%{}%", nd)),
+                ("ilike", format!("{}%", nd)),
+                ("ilike", format!("%{}", nd)),
+                ("eqi", nd.clone()),
+            ] {
+                v += 1;
+                // report the view configurations often: var % 4 == 2
+                let var = if v % 2 == 0 { 2 + 4 * (v % 16) } else { v % 64 };
+                out.push((like_line(op, var, &[Some(pat)], &hays), "dense:view-boundary"));
+            }
+        }
+    }
+    // ---- 3. memmem: haystack / needle sizes around 16 / 32 / 64, needle at start / middle / end / absent
+    let mut big: Vec<Row> = vec![];
+    for l in [15usize, 16, 17, 31, 32, 33, 63, 64, 65, 88] {
+        big.push(some(&abc[..l]));
+        big.push(some(&abc[88 - l..]));
+    }
+    for nl in [1usize, 2, 8, 15, 16, 17, 32, 40] {
+        for at in [0usize, 7, 30, 88 - nl] {
+            if at + nl > 88 {
+                continue;
+            }
+            let nd = &abc[at..at + nl];
+            v += 1;
+            out.push((like_line("ct", v % 64, &[some(nd)], &big), "dense:memmem-size"));
+            out.push((like_line("like", v % 64, &[Some(format!("%{}%", nd))], &big), "dense:memmem-size"));
+        }
+        let absent = format!("{}#", &abc[..nl - 1]);
+        out.push((like_line("ct", nl, &[Some(absent)], &big), "dense:memmem-size"));
+    }
+    // ---- 4. concat_elements: operand lengths around the inline-view limit 12, several long rows
+    let piece = |n: usize, off: usize| some(&abc[off..off + n]);
+    for rl in [0usize, 1, 6, 11, 12, 13, 20] {
+        let mut l: Vec<Row> = (0..=14).map(|n| piece(n, 0)).collect();
+        let mut r: Vec<Row> = (0..=14).map(|_| piece(rl, 30)).collect();
+        l.push(None);
+        r.push(piece(rl, 30));
+        l.push(some("\u{e9}\u{20AC}"));
+        r.push(None);
+        for var in 0..12 {
+            if var == 8 {
+                continue;
+            }
+            out.push((format!("C20 concat {} {} {}", var + 12 * (rl % 2), show_rows(&l), show_rows(&r)), "dense:concat-12"));
+        }
+        // fixed size binary: equal widths on each side
+        let lf: Vec<Row> = vec![piece(5, 0), None, piece(5, 7), piece(5, 9)];
+        let rf: Vec<Row> = vec![piece(rl, 30), piece(rl, 31), None, piece(rl, 33)];
+        out.push((format!("C20 concat 8 {} {}", show_rows(&lf), show_rows(&rf)), "dense:concat-12"));
+    }
+    out.push(("C20 concat 0 61,62 61".to_string(), "dense:errors"));
+    out.push(("C20 concat 2 61 61,62,63".to_string(), "dense:errors"));
+    // ---- 5. length / bit_length for every input kind, lengths around 12
+    let lens: Vec<Row> = (0..=14).map(|n| piece(n, 0)).chain([None, some("\u{e9}\u{20AC}\u{1F600}")]).collect();
+    let fixed: Vec<Row> = vec![piece(7, 0), piece(7, 3), piece(7, 9)];
+    for kind in 0..17 {
+        for op in ["len", "bitlen"] {
+            out.push((format!("C20 {} {} {}", op, kind, show_rows(if kind == 11 { &fixed } else { &lens })), "dense:length-kinds"));
+        }
+    }
+    // ---- 6. documented errors and operand-shape entry points of like_op
+    for op in ["like", "ilike", "sw", "ct", "eqi"] {
+        out.push((like_line(op, 0, &[some("a"), some("b")], &[some("a"), some("b"), some("c")]), "dense:errors"));
+        out.push((like_line(op, 5, &[some("a%")], &[some("ab"), None]), "dense:errors"));
+        out.push((like_line(op, 6, &[some("a%")], &[some("ab"), None]), "dense:errors"));
+        out.push((like_line(op, 24, &[some("a%")], &[some("ab")]), "dense:errors"));
+        out.push((like_line(op, 8, &[None], &[some("ab"), None]), "dense:errors"));
+        for var in 0..32 {
+            out.push((like_line(op, var, &[some("A%"), some("%b"), None, some("a_"), some("ab")], &[some("ab")]), "dense:left-scalar"));
+        }
+        out.push((like_line(op, 3, &[some("A%"), some("%b")], &[None]), "dense:left-scalar"));
+    }
+    // ---- 7. regular expressions: captures, errors, empty pattern, null operands
+    let rh = "61626361,~,_,414243,0a61,c3a9e282ac";
+    for (i, re) in ["(a)(b)?", "a|(b)", "(?P<x>b)c", "", "b", "^$", "(", "[a", "(\\w)(\\w)(\\w)", "\u{e9}(.)"].iter().enumerate() {
+        for var in [0usize, 1, 2, 3, 4, 5, 8, 9, 10, 32 + 8, 64 + 2, 96 + 9] {
+            out.push((format!("C20 rxm {} {} {}", var + i % 2 * 4, show_row(&some(re)), rh), "dense:regexp"));
+            out.push((format!("C20 rx {} {} {}", var + i % 2 * 4, show_row(&some(re)), rh), "dense:regexp"));
+        }
+    }
+    out.push((format!("C20 rxm 8 ~ {}", rh), "dense:regexp"));
+    out.push((format!("C20 rxm 0 ~ {}", rh), "dense:regexp"));
+    out.push((format!("C20 rxm 0 62,~,62,28,62,62 {}", rh), "dense:regexp"));
+    out.push((format!("C20 rx 0 62,~,62,28,62,62 {}", rh), "dense:regexp"));
+    out
 }
 
 fn main() {
@@ -1363,6 +1965,9 @@ fn main() {
         let thorough = args.tier == "thorough";
         let mut g = Gen { rng: Rng::new(args.seed ^ 0xC20), thorough };
         if args.cases.is_none() {
+            for (line, tag) in dense_cases() {
+                emit(&mut sink, line, tag);
+            }
             // exhaustive block: every pattern over {%, _, \, a, é, ., newline} up to length L
             // against every string over {a, é, ., newline, \, %, _} up to length L
             let l = if g.thorough { 4 } else { 3 };
@@ -1386,7 +1991,7 @@ fn main() {
             for start in -12i64..=12 {
                 for len in [None, Some(0u64), Some(1), Some(2), Some(3), Some(4), Some(5), Some(11), Some(12)] {
                     let ls = len.map(|l| l.to_string()).unwrap_or("N".into());
-                    for kind in ["s0", "s1", "s2", "s3", "b0", "b2", "s0x"] {
+                    for kind in ["s0", "s1", "s2", "s3", "b0", "b2", "s0x", "s4", "s5", "s6x", "s7", "b1"] {
                         ctr += 1;
                         if !g.thorough && ctr % 3 != 0 {
                             continue;
